@@ -135,13 +135,20 @@ def check(case) -> Outcome:
     classes.append("decl_" + case["vars"][0]["decl"])
     try:
         built = build_query(case, objs)
-        got = [(r,) for r in built.q.evaluate()]
     except Exception as e:
-        return fail("exception", f"{type(e).__name__}: {e}; expected {expected}", nontrivial=nontrivial,
+        return fail("exception", f"building: {type(e).__name__}: {e}; expected {expected}", nontrivial=nontrivial,
                     classes=classes, features=feats)
-    bad = compare_lists(expected, got)
-    if bad:
-        return fail(bad[0], bad[1], nontrivial=nontrivial, classes=classes, features=feats)
+    # "iterating the result" holds for every iteration: the same query object is evaluated three times
+    for attempt in (1, 2, 3):
+        try:
+            got = [(r,) for r in built.q.evaluate()]
+        except Exception as e:
+            return fail("exception", f"evaluation {attempt}: {type(e).__name__}: {e}; expected {expected}",
+                        nontrivial=nontrivial, classes=classes, features=feats)
+        bad = compare_lists(expected, got)
+        if bad:
+            return fail(bad[0] if attempt == 1 else "reevaluation_" + bad[0], f"evaluation {attempt}: {bad[1]}",
+                        nontrivial=nontrivial, classes=classes, features=feats)
     return Outcome(True, nontrivial=nontrivial, classes=classes, features=feats)
 
 
